@@ -528,7 +528,7 @@ pub fn with_watchdog<T: Send + 'static>(secs: u64, f: impl FnOnce() -> T + Send 
 /// build the program on a fresh pipeline and collect it with the REAL engine
 pub fn run_real(prog: &Prog, mode: Mode) -> Outcome {
     let prog = prog.clone();
-    match with_watchdog(20, move || {
+    match with_watchdog(10, move || {
         let p = Pipeline::default();
         let c = build(&p, &prog);
         collect(c, mode)
@@ -854,6 +854,11 @@ pub struct CheckOpts {
 
 /// Run `prog` in every mode on the REAL engine, register the correspondence cases and evaluate the oracles.
 pub fn check_prog(cx: &mut Ctx, prog: &Prog, modes: &[Mode], o: &CheckOpts) {
+    // each hung run leaves a spinning thread behind and costs a watchdog period: three are proof enough
+    if cx.stats.get("outcome:HANG").copied().unwrap_or(0) >= 3 {
+        cx.count("skipped-after-3-hangs");
+        return;
+    }
     count_prog(cx, prog);
     let canon = prog.canon();
     let nontrivial = prog.src.len() >= 2 && !prog.steps.is_empty();
@@ -866,7 +871,7 @@ pub fn check_prog(cx: &mut Ctx, prog: &Prog, modes: &[Mode], o: &CheckOpts) {
         cx.count(&format!("mode:{}", if *m == Mode::Seq { "seq" } else { "par" }));
         cx.count(&format!("outcome:{}", ans.split(' ').next().unwrap_or("")));
         if matches!(out, Outcome::Hang) {
-            cx.oracle_fail(idx, "run-does-not-terminate", format!("no result within 20 s in mode {}", m.enc()));
+            cx.oracle_fail(idx, "run-does-not-terminate", format!("no result within 10 s in mode {}", m.enc()));
             continue;
         }
         if *m == Mode::Seq {
